@@ -8,6 +8,7 @@ labels left on the result are the same.
   R04.5  operand order: tensordot(a, b) and tensordot(b, a) are related by the fermionic transpose of the result
   R04.6  listing order of the contracted axis pairs, and fermionic transposes applied to an operand beforehand, do not matter
   R04.7  associativity: (A.B).C and A.(B.C) for chains, and both routes through a triangle, agree (signs and labels)
+  R04.9  four-tensor rings: the scalar along ((A.B).C).D, (A.B).(C.D), A.((B.C).D) and (D.A).(B.C) agrees
 """
 
 from __future__ import annotations
@@ -260,6 +261,97 @@ def route_cases(tier):
                                         if Ct.sectors():
                                             chains.append((A2, Bc, Ct, "triangle"))
     return pairs, chains
+
+
+def _ring_job(state, job):
+    """four tensors on a ring A(i, j) B(j*, k) C(k*, l) D(l*, i*): the scalar along four contraction trees (two tree shapes, cyclic start)"""
+    prog, tier = state
+    A, B, C, D = job
+    w = World(prog)
+    wit = Witness()
+    where = f"ring: A {A.describe()} label {A.label} ; B {B.describe()} label {B.label} ; C {C.describe()} label {C.label} ; D {D.describe()} label {D.label}"
+    J = ((1,), (0,))
+    CL = ((0, 1), (1, 0))
+    try:
+        ev = w.ev()
+        wit.tick("R04.9")
+        routes = {}
+        ab = _td(w, ev, A.build(w), B.build(w), J)                       # (i, k)
+        routes["((A.B).C).D"] = value(w, ev, _td(w, ev, _td(w, ev, ab, C.build(w), J), D.build(w), CL, scalar=True))
+        ab = _td(w, ev, A.build(w), B.build(w), J)
+        cd = _td(w, ev, C.build(w), D.build(w), J)                       # (k*, i*)
+        routes["(A.B).(C.D)"] = value(w, ev, _td(w, ev, ab, cd, CL, scalar=True))
+        bcd = _td(w, ev, _td(w, ev, B.build(w), C.build(w), J), D.build(w), J)    # (j*, i*)
+        routes["A.((B.C).D)"] = value(w, ev, _td(w, ev, A.build(w), bcd, CL, scalar=True))
+        da = _td(w, ev, D.build(w), A.build(w), J)                       # (l*, j)
+        bc = _td(w, ev, B.build(w), C.build(w), J)                       # (j*, l)
+        routes["(D.A).(B.C)"] = value(w, ev, _td(w, ev, da, bc, CL, scalar=True))
+        ref_name, ref = next(iter(routes.items()))
+        for name, val in routes.items():
+            if val != ref:
+                wit.bad(f"R04.9|{name}", f"{where}: the ring contracted as {name} differs from {ref_name}")
+    except Diverges:
+        wit.bad("R04.9|does not terminate", f"{where}: the contraction does not terminate (loop bound exceeded)")
+    except Unsupported as e:
+        raise AnalysisError(f"tensordot_fermionic outside the evaluable sub-language: {e}")
+    except Raised as e:
+        wit.bad("R04.9|refused", f"{where}: raises {e.what[:120]}")
+    except PYERR as e:
+        wit.bad("R04.9|fails", f"{where}: {type(e).__name__}: {e}")
+    except LayoutError as e:
+        wit.bad("R04.9|form", f"{where}: {e}")
+    return wit.w, wit.n
+
+
+def ring_cases(tier):
+    out = []
+    syms = ("Z2", "U1") if tier == "quick" else ("Z2", "U1", "Z2Z2", "U1U1")
+    if tier == "quick":
+        perms = ((1, 2, 3, 4), (4, 2, 1, 3), (2, 4, 3, 1), (3, 1, 4, 2))
+    else:
+        perms = tuple(itertools.permutations((1, 2, 3, 4)))[::2]
+    for sym in syms:
+        model = Model(sym)
+        charges = (model.combine(), NONTRIVIAL[sym])
+        for duals in sorted(set(itertools.product((False, True), repeat=2))):
+            for ca, cb, cc, cd in itertools.product(charges, repeat=4):
+                for la, lb, lc, ld in perms:
+                    A = Spec(sym, duals, ca, TABLES[sym][:2], fermionic=True, signs=1, tag="a", label=la)
+                    if not A.sectors():
+                        continue
+                    B = partner(A, 1, 1, charge=cb, tag="b")
+                    if B is None:
+                        continue
+                    B.label = lb
+                    C = partner(B, 1, 1, charge=cc, tag="c")
+                    if C is None:
+                        continue
+                    C.label = lc
+                    D = Spec(sym, (not C.duals[-1], not A.duals[0]), cd, (C.tables[-1], A.tables[0]), fermionic=True, signs=1, tag="d", label=ld)
+                    if D.sectors():
+                        out.append((A, B, C, D))
+    return out
+
+
+def check_rings(prog, ctx):
+    from engine.parallel import pmap
+
+    cases = ring_cases(ctx.tier)
+    ctx.need(len(cases) >= 100, f"R04.9: only {len(cases)} four-tensor rings")
+    wits, n = {}, 0
+    for wmap, cnt in pmap(_ring_job, (prog, ctx.tier), cases):
+        for k, v in wmap.items():
+            wits.setdefault(k, v)
+        n += cnt.get("R04.9", 0)
+    rs = prog.func("symmray.fermionic_core:resolve_combined_oddpos")
+    msg = ("four-tensor rings A(i,j) B(j*,k) C(k*,l) D(l*,i*): the scalar is the same signed sum of products along ((A.B).C).D, (A.B).(C.D), "
+           "A.((B.C).D) and (D.A).(B.C), for every assignment of even / odd charges and several label orders")
+    mine = {k.split("|", 1)[1]: v for k, v in wits.items()}
+    if not mine:
+        ctx.check(True, "R04.9", rs, rs.node, "R04.9", f"{msg} ({n} rings x 4 trees)")
+    for fam, wmsg in sorted(mine.items()):
+        ctx.check(False, "R04.9", rs, rs.node, fam, f"{msg} — witness: {wmsg}")
+    return n
 
 
 def check_routes(prog, ctx):
